@@ -3,6 +3,9 @@
 
   rename   every local variable of every function is renamed (parameters and attributes keep their names)
   unparse  the modules are only round-tripped through ast.unparse (formatting, quotes, parentheses, line numbers change)
+  reorder  the methods of every class appear in reverse order
+  noise    docstrings, debug log calls, an unused import and constant are added; exception message texts change
+  hints    parameter and return annotations are removed
 """
 from __future__ import annotations
 
@@ -52,11 +55,70 @@ def make_overrides(kind: str, root="/repo"):
         tree = ast.parse(p.read_text())
         if kind == "rename":
             # only top-level functions and methods (nested defs are renamed with their parent)
-            for n in ast.walk(tree):
-                pass
             tree = _rename_outer(tree)
+        elif kind == "reorder":
+            tree = _reorder(tree)
+        elif kind == "noise":
+            tree = _noise(tree)
+        elif kind == "hints":
+            tree = _strip_hints(tree)
         out[rel] = ast.unparse(tree) + "\n"
     return out
+
+
+def _reorder(tree):
+    """Methods of every class and the functions of every module in reverse order (definitions only; module-level
+    statements and class-level assignments keep their places relative to each other, functions used by module-level
+    code - decorators, rebinding - stay where they are)."""
+    for n in ast.walk(tree):
+        if isinstance(n, ast.ClassDef):
+            idx = [i for i, s in enumerate(n.body) if isinstance(s, ast.FunctionDef) and not s.decorator_list]
+            funcs = [n.body[i] for i in idx][::-1]
+            for i, f in zip(idx, funcs):
+                n.body[i] = f
+    return tree
+
+
+def _noise(tree):
+    """Edits that add or change nothing of the behaviour: a docstring and a debug call at the top of every function, an unused
+    module constant and import, different exception message texts."""
+    has_log = any(isinstance(s, ast.Assign) and any(isinstance(t, ast.Name) and t.id == "log" for t in s.targets) for s in tree.body)
+    for n in ast.walk(tree):
+        if isinstance(n, (ast.FunctionDef, ast.AsyncFunctionDef)):
+            first = n.body[0]
+            body = list(n.body)
+            if not (isinstance(first, ast.Expr) and isinstance(first.value, ast.Constant) and isinstance(first.value.value, str)):
+                body.insert(0, ast.Expr(value=ast.Constant(value=f"Twin docstring for {n.name}.")))
+            if has_log and not any(isinstance(x, (ast.Yield, ast.YieldFrom)) for x in ast.walk(n)):
+                body.insert(1, ast.Expr(value=ast.Call(func=ast.Attribute(value=ast.Name(id="log", ctx=ast.Load()), attr="debug", ctx=ast.Load()),
+                                                       args=[ast.Constant(value="enter %s"), ast.Constant(value=n.name)], keywords=[])))
+            n.body = body
+        elif isinstance(n, ast.Raise) and isinstance(n.exc, ast.Call) and n.exc.args and isinstance(n.exc.args[0], (ast.Constant, ast.JoinedStr)):
+            a0 = n.exc.args[0]
+            if isinstance(a0, ast.Constant) and isinstance(a0.value, str):
+                n.exc.args[0] = ast.Constant(value="twin: " + a0.value)
+    pos = 0
+    for i, s_ in enumerate(tree.body):
+        if isinstance(s_, (ast.Import, ast.ImportFrom)) or (isinstance(s_, ast.Expr) and isinstance(getattr(s_, "value", None), ast.Constant)):
+            pos = i + 1
+    tree.body.insert(pos, ast.Assign(targets=[ast.Name(id="_TWIN_UNUSED", ctx=ast.Store())], value=ast.Constant(value=12345), lineno=1))
+    tree.body.insert(pos, ast.Import(names=[ast.alias(name="itertools", asname="_twin_itertools")]))
+    ast.fix_missing_locations(tree)
+    return tree
+
+
+def _strip_hints(tree):
+    """Annotations of parameters and return values removed (annotated assignments keep theirs: they are statements)."""
+    for n in ast.walk(tree):
+        if isinstance(n, (ast.FunctionDef, ast.AsyncFunctionDef)):
+            n.returns = None
+            for a in n.args.posonlyargs + n.args.args + n.args.kwonlyargs:
+                a.annotation = None
+            if n.args.vararg:
+                n.args.vararg.annotation = None
+            if n.args.kwarg:
+                n.args.kwarg.annotation = None
+    return tree
 
 
 def _rename_outer(tree):
@@ -83,7 +145,7 @@ def _job(args):
 
 
 def main():
-    kinds = sys.argv[1:] or ["unparse", "rename"]
+    kinds = sys.argv[1:] or ["unparse", "rename", "reorder", "noise", "hints"]
     props = [f"C{i:02d}" for i in range(1, 21)]
     with Pool(16) as pool:
         res = pool.map(_job, [(p, k) for k in kinds for p in props])
